@@ -188,10 +188,14 @@ class NumpyModel:
         if l.idx is not None and l.idx[0] == 'FRAME' and has_const(r) and o in ('+', '-'):
             k = cval(r) if o == '+' else -cval(r)
             cur = l.at if l.at is not None else 0
+            if cur == 'mixed':
+                return 'mixed'
             if isinstance(k, int):
                 return cur + k
         if r.idx is not None and r.idx[0] == 'FRAME' and has_const(l) and o == '+':
             cur = r.at if r.at is not None else 0
+            if cur == 'mixed':
+                return 'mixed'
             if isinstance(cval(l), int):
                 return cur + cval(l)
         return None
